@@ -7,7 +7,11 @@ literals of `_compile_regex`, the isinstance dispatch of `compile_constraint`, t
 name (`field_name`, `schema.name`, ...) or exactly `self._escape_literal(field_name)` / `self._escape_literal(schema_name)`
 (kept as a hole of that name: the model escapes there and nowhere else); the flags `gbnf_field_name_escaped` /
 `gbnf_schema_name_escaped` say whether EVERY occurrence of the name in a template is wrapped (Gbnf/Safe.v chooses the
-name clause by them; Gbnf/Compiler.v pins that they agree with the templates).
+name clause by them; Gbnf/Compiler.v pins that they agree with the templates).  The header comment's hole is
+`schema.name` or exactly `" ".join(schema.name.splitlines())` (repo b75eb16; flag `gbnf_header_name_one_line`).
+Also extracted: which expression feeds SchemaDefinition.name on each route (`gbnf_name_sources`: compile_gbnf_from_meta,
+extract_schema_from_document, emit_grammar_for_schema), the extractor's default name, the parser's INFERRED placeholder
+and the CONTRACT-or-FIELDS dispatch of octave_compile_grammar / octave_eject -- any other binding of the name fails closed.
 Fail closed: any statement shape that is not recognised raises TranslateError.
 """
 import ast
@@ -37,12 +41,23 @@ def _single_return_const(mod, name):
 
 
 ESC_WRAPPED = ("field_name", "schema_name")      # names that may appear as self._escape_literal(<name>) in a template
+ONE_LINE_NAME = "' '.join(schema.name.splitlines())"    # repo b75eb16: the header comment shows the name on one line
 
 
 def _hole_name(e):
     """Text of an f-string hole. The ONLY call accepted is `self._escape_literal(<Name>)` (one positional Name argument,
     no keywords): it becomes the hole `self._escape_literal(<name>)`, which `allowed` must list. Anything else that is
     not a plain name / attribute chain is refused."""
+    if isinstance(e, ast.Call) and isinstance(e.func, ast.Attribute) and e.func.attr == "join":
+        # exactly  " ".join(schema.name.splitlines())  -- separator one blank, no keepends, nothing else
+        f = e.func
+        ok = (isinstance(f.value, ast.Constant) and f.value.value == " " and len(e.args) == 1 and not e.keywords)
+        a = e.args[0] if ok else None
+        ok = ok and isinstance(a, ast.Call) and not a.args and not a.keywords and isinstance(a.func, ast.Attribute) \
+            and a.func.attr == "splitlines" and ast.unparse(a.func.value) == "schema.name" \
+            and isinstance(a.func.value, ast.Attribute) and isinstance(a.func.value.value, ast.Name)
+        need(ok, f"unexpected join in a template hole: {ast.unparse(e)[:70]}")
+        return ONE_LINE_NAME
     if isinstance(e, ast.Call):
         f = e.func
         need(isinstance(f, ast.Attribute) and isinstance(f.value, ast.Name) and f.value.id == "self"
@@ -59,8 +74,8 @@ def _fstring_parts(e, allowed):
         return [("L", e.value)]
     if isinstance(e, ast.BinOp) and isinstance(e.op, ast.Add):
         return _fstring_parts(e.left, allowed) + _fstring_parts(e.right, allowed)
-    if isinstance(e, (ast.Name, ast.Attribute)):
-        h = ast.unparse(e)
+    if isinstance(e, (ast.Name, ast.Attribute, ast.Call)):
+        h = _hole_name(e)
         need(h in allowed, f"unexpected hole {h}")
         return [("H", h)]
     if isinstance(e, ast.JoinedStr):
@@ -78,6 +93,40 @@ def _fstring_parts(e, allowed):
     raise TranslateError(f"unsupported template expression {ast.unparse(e)[:60]}")
 
 
+def _other_name_stores(fn, obj):
+    """Stores to <obj>.name other than plain `obj.name = ...` assignments (aug-assign, setattr, tuple targets ...)."""
+    bad = []
+    for n in ast.walk(fn):
+        if isinstance(n, (ast.AugAssign, ast.AnnAssign)) and ast.unparse(n.target) == f"{obj}.name":
+            bad.append(n)
+        if isinstance(n, ast.Call) and ast.unparse(n.func) == "setattr" and n.args and ast.unparse(n.args[0]) == obj:
+            bad.append(n)
+        if isinstance(n, ast.Assign) and any(isinstance(t, (ast.Tuple, ast.List)) and f"{obj}.name" in ast.unparse(t) for t in n.targets):
+            bad.append(n)
+    return bad
+
+
+def _name_feed(fn, var):
+    """The unique expression bound to local `var`, which must be what the unique SchemaDefinition(name=var, ...) call of
+    `fn` receives; no other binding of `var`, no later store to <schema>.name, no setattr / replace() on the schema."""
+    binds = [n for n in ast.walk(fn) if isinstance(n, ast.Name) and n.id == var and isinstance(n.ctx, ast.Store)]
+    need(len(binds) == 1, f"{fn.name}: `{var}` is bound {len(binds)} times (expected once)")
+    asg = [n for n in fn.body if isinstance(n, ast.Assign) and len(n.targets) == 1 and isinstance(n.targets[0], ast.Name)
+           and n.targets[0].id == var]
+    need(len(asg) == 1, f"{fn.name}: `{var}` is not bound by one top-level assignment")
+    calls = [n for n in ast.walk(fn) if isinstance(n, ast.Call) and ast.unparse(n.func) == "SchemaDefinition"]
+    need(len(calls) == 1, f"{fn.name}: expected one SchemaDefinition(...) call, found {len(calls)}")
+    kw = [k for k in calls[0].keywords if k.arg == "name"]
+    need(not calls[0].args and len(kw) == 1 and isinstance(kw[0].value, ast.Name) and kw[0].value.id == var,
+         f"{fn.name}: SchemaDefinition is no longer built with name={var}")
+    for n in ast.walk(fn):
+        if isinstance(n, ast.Attribute) and n.attr == "name" and isinstance(n.ctx, (ast.Store, ast.Del)):
+            raise TranslateError(f"{fn.name}: store to {ast.unparse(n)}")
+        if isinstance(n, ast.Call) and ast.unparse(n.func) in ("setattr", "replace", "dataclasses.replace", "object.__setattr__"):
+            raise TranslateError(f"{fn.name}: {ast.unparse(n)[:60]}")
+    return asg[0].value
+
+
 def _is_append(st, target):
     return (isinstance(st, ast.Expr) and isinstance(st.value, ast.Call) and isinstance(st.value.func, ast.Attribute)
             and st.value.func.attr == "append" and isinstance(st.value.func.value, ast.Name)
@@ -90,7 +139,7 @@ def _compile_schema(mod):
     need(args == ["self", "schema", "include_envelope"], f"compile_schema signature changed: {args}")
     need(len(fn.args.defaults) == 1 and const_eval(fn.args.defaults[0]) is False, "include_envelope default changed")
     holes = {"schema.name", "rule_name", "field_name", "pattern", "field_refs", "schema_name"} \
-        | {f"self._escape_literal({n})" for n in ESC_WRAPPED}
+        | {f"self._escape_literal({n})" for n in ESC_WRAPPED} | {ONE_LINE_NAME}
     prog = []          # (guard, parts)
     info = {}
 
@@ -357,6 +406,10 @@ def generate(src):
         wrapped = sum(1 for _, parts in prog for k, v in parts if k == "H" and v == f"self._escape_literal({var})")
         need(raw + wrapped >= 1, f"compile_schema: {var} is no longer written into any template")
         out.append(f"Definition gbnf_{var}_escaped : bool := {'true' if raw == 0 else 'false'}.\n")
+    raw = sum(1 for _, parts in prog for k, v in parts if k == "H" and v == "schema.name")
+    one = sum(1 for _, parts in prog for k, v in parts if k == "H" and v == ONE_LINE_NAME)
+    need(raw + one >= 1, "compile_schema: schema.name is no longer written into any template")
+    out.append(f"Definition gbnf_header_name_one_line : bool := {'true' if raw == 0 else 'false'}.\n")
     items = []
     for g, parts in prog:
         ps = coq_list([("PLit " if k == "L" else "PHole ") + coq_str(v) for k, v in parts], "gpart")
@@ -371,4 +424,50 @@ def generate(src):
     need("compiler.compile_schema(schema, include_envelope=True)" in srcm, "compile_gbnf_from_meta: final call changed")
     need("schema_type = meta.get('TYPE', 'UNKNOWN')" in srcm, "compile_gbnf_from_meta: TYPE default changed")
     d_str("gbnf_contract_default_type", "UNKNOWN")
+    # ---- which expression feeds SchemaDefinition.name, per route ----
+    srcs = []
+    e = _name_feed(fn, "schema_type")
+    need(ast.unparse(e) == "meta.get('TYPE', 'UNKNOWN')", "compile_gbnf_from_meta: the schema name is no longer meta.get('TYPE', 'UNKNOWN')")
+    srcs.append(("compile_gbnf_from_meta", ast.unparse(e)))
+    xmod = parse_file(src / "core" / "schema_extractor.py")
+    xfn = find_def(xmod, "extract_schema_from_document")
+    e = _name_feed(xfn, "name")
+    need(isinstance(e, ast.IfExp) and ast.unparse(e.test) == "doc.name" and ast.unparse(e.body) == "doc.name"
+         and isinstance(e.orelse, ast.Constant) and isinstance(e.orelse.value, str),
+         "extract_schema_from_document: the schema name is no longer `doc.name if doc.name else <literal>`: " + ast.unparse(e)[:80])
+    d_str("gbnf_docroute_default_name", e.orelse.value)
+    srcs.append(("extract_schema_from_document", ast.unparse(e)))
+    gmod = parse_file(src / "core" / "grammar.py")
+    gfn = find_def(gmod, "emit_grammar_for_schema")
+    need([a.arg for a in gfn.args.args] == ["schema_name"], "emit_grammar_for_schema signature changed")
+    need([ast.unparse(x) for x in _body(gfn)] == ["schema = SchemaDefinition(name=schema_name, version='1.0')", "compiler = GBNFCompiler()",
+                                                  "return compiler.compile_schema(schema, include_envelope=True)"],
+         "emit_grammar_for_schema body changed")
+    srcs.append(("emit_grammar_for_schema", "schema_name"))
+    gfn = find_def(gmod, "compile_document_grammar")
+    need([ast.unparse(x) for x in _body(gfn)] == ["return compile_gbnf_from_meta(meta)"], "compile_document_grammar body changed")
+    # the parser's Document.name: envelope token or the placeholder
+    pmod = parse_file(src / "core" / "parser.py")
+    pfn = find_def(pmod, "parse_document", "Parser")
+    stores = [n for n in ast.walk(pfn) if isinstance(n, ast.Assign) and any(ast.unparse(t) == "doc.name" for t in n.targets)]
+    need(sorted(ast.unparse(n.value) for n in stores) == ["'INFERRED'", "token.value"] and not _other_name_stores(pfn, "doc"),
+         "Parser.parse_document: Document.name is no longer the envelope token value / the placeholder")
+    ifs = [n for n in pfn.body if isinstance(n, ast.If) and ast.unparse(n.test) == "self.current().type == TokenType.ENVELOPE_START"]
+    need(len(ifs) == 1 and [ast.unparse(x) for x in ifs[0].body[:2]] == ["token = self.advance()", "doc.name = token.value"]
+         and [ast.unparse(x) for x in ifs[0].orelse] == ["doc.name = 'INFERRED'"], "Parser.parse_document: envelope branch changed")
+    d_str("gbnf_parser_inferred_name", "INFERRED")
+    amod = parse_file(src / "core" / "ast_nodes.py")
+    dcls = [n for n in amod.body if isinstance(n, ast.ClassDef) and n.name == "Document"]
+    need(len(dcls) == 1 and any(isinstance(n, ast.AnnAssign) and ast.unparse(n.target) == "name" and n.value is not None
+                                and const_eval(n.value) == "INFERRED" for n in dcls[0].body), "Document.name default changed")
+    # tool dispatch: META.CONTRACT present -> compile_gbnf_from_meta(doc.meta); else extract_schema_from_document(doc)
+    for rel, cls_, meth in (("mcp/compile_grammar.py", "CompileGrammarTool", "execute"), ("mcp/eject.py", "EjectTool", "execute")):
+        tmod = parse_file(src / rel)
+        tsrc = ast.unparse(find_def(tmod, meth, cls_))
+        need("if doc.meta and 'CONTRACT' in doc.meta:" in tsrc and "compile_gbnf_from_meta(doc.meta)" in tsrc
+             and "extract_schema_from_document(doc)" in tsrc and "include_envelope=True)" in tsrc,
+             f"{rel}: grammar route dispatch changed")
+    out.append("(* per route: the expression that feeds SchemaDefinition.name *)\n")
+    out.append("Definition gbnf_name_sources : list (list N * list N) :=\n  "
+               + coq_list([f"({coq_str(a)}, {coq_str(c)})" for a, c in srcs]) + ".\n")
     return {"GbnfGen.v": "".join(out)}
